@@ -802,6 +802,115 @@ fn c04_eval(c: &C04Case, r: &mut Report) {
     }
 }
 
+/// child side of the first-call workload: decode the case, perform the one open, report
+pub fn first_call(arg: &str) -> String {
+    match serde_json::from_str::<C04Case>(arg) {
+        Ok(c) => {
+            let out = open_any(c.layer, c.p, &c.key2, &c.token, c.footer.as_deref(), c.ia.as_deref());
+            json!({"class": out.class(), "brief": util::clip(&out.brief(), 200)}).to_string()
+        }
+        Err(e) => json!({"class": "harness-error", "brief": format!("cannot decode case: {}", e)}).to_string(),
+    }
+}
+
+/// The FIRST library call of a process: tokens built here are handed to fresh child processes (this executable, mode
+/// `first-call`) whose very first call into the library is the presentation of the token under ANOTHER key.  Whatever a
+/// lazily initialised piece of the library does on its first use, a wrong key must be refused then as well.
+pub fn first_call_in_a_process(pools: &Pools, seed: u64, thorough: bool, r: &mut Report) {
+    let exe = match std::env::current_exe() {
+        Ok(e) => e,
+        Err(e) => {
+            r.inconclusive.push(format!("C04 first-call workload: cannot locate the harness executable: {}", e));
+            return;
+        }
+    };
+    let mut rng = Rng::new(seed, "c04-first-call", 0);
+    let mut cases: Vec<C04Case> = Vec::new();
+    for &p in &ALL {
+        if pools.count(p) < 2 {
+            continue;
+        }
+        let key = pools.key(p, 0);
+        for (mi, msg) in ["", "x", "{}", "7", JSON_MSG].iter().enumerate() {
+            let layer = if mi < 4 { Layer::Core } else { LAYERS[rng.below(3)] };
+            let footer = [None, Some("ftr")][mi % 2];
+            let token = match seal_at(layer, p, &key, &mut rng, msg, footer, None) {
+                Out::Ok(t) => t,
+                _ => continue,
+            };
+            let nkeys = if thorough { 12 } else if p.is_local() { 4 } else { 2 };
+            for k in 0..nkeys {
+                // another pool key, or a random / single-bit neighbour of the right one
+                let key2 = if k == 0 {
+                    pools.key(p, 1)
+                } else {
+                    let mut kb = key_bytes(p, &key);
+                    if k % 2 == 1 {
+                        let bit = rng.below(kb.len() * 8);
+                        kb[bit / 8] ^= 1 << (bit % 8);
+                    } else if p.is_local() {
+                        kb = rng.bytes(kb.len());
+                    } else {
+                        let at = kb.len() - 1 - rng.below(8);
+                        kb[at] = kb[at].wrapping_add(1 + rng.below(200) as u8);
+                    }
+                    with_key_bytes(p, &key, kb)
+                };
+                cases.push(C04Case { p, layer, key: key.clone(), key2, token: token.clone(), footer: footer.map(|s| s.to_string()), ia: None, class: "first-call-in-a-fresh-process".into() });
+            }
+        }
+    }
+    let rep = parallel(cases.len(), util::threads(), |i, r| {
+        let c = &cases[i];
+        let arg = serde_json::to_string(c).unwrap_or_default();
+        let out = std::process::Command::new(&exe).arg("first-call").arg(&arg).env("RUST_BACKTRACE", "0").output();
+        r.evaluations += 1;
+        let tag = format!("{}/{}", c.p.name(), c.layer.name());
+        match out {
+            Ok(o) => {
+                let text = String::from_utf8_lossy(&o.stdout);
+                let v: Value = serde_json::from_str(text.trim()).unwrap_or(Value::Null);
+                match v["class"].as_str() {
+                    Some("ok") => r.violation(
+                        format!("C04 accepted-under-other-key-as-first-call-of-a-process {}", tag),
+                        format!("{}: a fresh process whose first library call presented the token under a different key {} ACCEPTED it ({})", tag, util::hex(&key_bytes(c.p, &c.key2)), v["brief"].as_str().unwrap_or("")),
+                        json!({"cmd": "C04-first-call", "case": c}),
+                    ),
+                    Some("err") => r.count(&format!("{} rejected as the first call of a fresh process", tag)),
+                    Some("panic") => r.violation(format!("C04 panic {} class=first-call", tag), format!("{}: panic under a different key as the first call of a process: {}", tag, v["brief"].as_str().unwrap_or("")), json!({"cmd": "C04-first-call", "case": c})),
+                    _ => r.discard(&format!("first-call child gave no usable answer (status {:?})", o.status.code())),
+                }
+            }
+            Err(e) => r.discard(&format!("first-call child could not be started: {}", e)),
+        }
+    });
+    r.merge(rep);
+    r.require("v4.local/core rejected as the first call of a fresh process", 4);
+}
+
+pub fn replay_first_call(case: &Value) -> Report {
+    let mut r = Report::new();
+    match (serde_json::from_value::<C04Case>(case.clone()), std::env::current_exe()) {
+        (Ok(c), Ok(exe)) => {
+            let arg = serde_json::to_string(&c).unwrap_or_default();
+            match std::process::Command::new(&exe).arg("first-call").arg(&arg).output() {
+                Ok(o) => {
+                    let v: Value = serde_json::from_str(String::from_utf8_lossy(&o.stdout).trim()).unwrap_or(Value::Null);
+                    r.evaluations += 1;
+                    if v["class"].as_str() == Some("ok") {
+                        r.violation("C04 accepted-under-other-key-as-first-call-of-a-process (replay)", format!("still accepted: {}", v["brief"]), json!({"cmd": "C04-first-call", "case": c}));
+                    } else {
+                        r.count("first-call replay: not accepted");
+                    }
+                }
+                Err(e) => r.inconclusive.push(format!("cannot start the child: {}", e)),
+            }
+        }
+        _ => r.inconclusive.push("cannot decode replay case".into()),
+    }
+    r
+}
+
 pub fn run_c04(tier: &str, seed: u64) -> Report {
     let thorough = tier == "thorough";
     let pools = Pools::new(seed, if thorough { 64 } else { 16 }, if thorough { 16 } else { 6 });
@@ -910,6 +1019,7 @@ pub fn run_c04(tier: &str, seed: u64) -> Report {
     nested_pairs("C04", &cases, if thorough { 2000 } else { 160 }, seed, &mut rs);
     c04_long_sessions(&pools, seed, thorough, &mut rs);
     builder_key_changes(&pools, &mut rs);
+    first_call_in_a_process(&pools, seed, thorough, &mut rs);
     rs.require("nested parser pairs: both answer as alone", 60);
     total.merge(rs);
     for &p in &ALL {
@@ -938,7 +1048,7 @@ pub fn replay_c04(case: &Value) -> Report {
     r
 }
 
-pub const RULE_C04: &str = "per protocol 24 (thorough 1500) authentic tokens built at core/generic/batteries layer (footer none/text/empty, assertion none/text) are presented at the same layer under every single-bit neighbour of the key (all 256 bits of symmetric and Ed25519 public keys, all 392 bits of the compressed P-384 point, all bits of the RSA public-key DER), all-zero, all-one, 50 random (1500 for local tokens whose plaintext is 0-2 bytes, incl. the claim-less '{}' of the generic builder: garbage from an unauthenticated decryption is well-formed only when short), rotated/reversed/half-zeroed keys, every other pool key, and for v3.public the ECDSA 'duplicate-signature' keys recovered from the token's own signature over the specified digest and over five binding-free digest variants (the signer's key must be the only recovered key that is accepted); ONE builder object building under key1, key2, (unusable key material,) key1, ... (each token opens under the key it was built with and under no other, also after a build that failed); NESTED parser pairs (160, thorough 2000: a second parser object of any protocol/layer is created, used and dropped in the middle of another parser's session on the same thread; both must answer as they do alone); parser sessions incl. LONG ones (one parser object, 3000 (thorough 20000-70000) parses of right-key / other-key / one-character-changed presentations of 300 distinct tokens in a seeded order); every key refused as unusable and every third other wrong key is presented again in a right-key, wrong-key, wrong-key sequence (a rejection must stay a rejection, whatever the verifier keeps from its last good call); oracle: any Ok under another key is a violation (a key that fails to parse counts as 'fails'); distinct_nontrivial = distinct (protocol, layer, key class, rejection variant)";
+pub const RULE_C04: &str = "per protocol 24 (thorough 1500) authentic tokens built at core/generic/batteries layer (footer none/text/empty, assertion none/text) are presented at the same layer under every single-bit neighbour of the key (all 256 bits of symmetric and Ed25519 public keys, all 392 bits of the compressed P-384 point, all bits of the RSA public-key DER), all-zero, all-one, 50 random (1500 for local tokens whose plaintext is 0-2 bytes, incl. the claim-less '{}' of the generic builder: garbage from an unauthenticated decryption is well-formed only when short), rotated/reversed/half-zeroed keys, every other pool key, and for v3.public the ECDSA 'duplicate-signature' keys recovered from the token's own signature over the specified digest and over five binding-free digest variants (the signer's key must be the only recovered key that is accepted); ONE builder object building under key1, key2, (unusable key material,) key1, ... (each token opens under the key it was built with and under no other, also after a build that failed); NESTED parser pairs (160, thorough 2000: a second parser object of any protocol/layer is created, used and dropped in the middle of another parser's session on the same thread; both must answer as they do alone); parser sessions incl. LONG ones (one parser object, 3000 (thorough 20000-70000) parses of right-key / other-key / one-character-changed presentations of 300 distinct tokens in a seeded order); every key refused as unusable and every third other wrong key is presented again in a right-key, wrong-key, wrong-key sequence (a rejection must stay a rejection, whatever the verifier keeps from its last good call); FRESH PROCESSES (about 150, thorough 480) whose very first library call presents a token (empty / 1-2 byte / JSON message) under another key (lazy first-use paths differ from the steady state); oracle: any Ok under another key is a violation (a key that fails to parse counts as 'fails'); distinct_nontrivial = distinct (protocol, layer, key class, rejection variant)";
 
 // ==========================================================================================
 // C05
